@@ -53,8 +53,13 @@ func (chkC04) CheckState(w *World, s *Snap, st State) []Viol {
 			add("lease-price", "lease-price-ne-bid-price", "lease %s price %s differs from bid price %s", k, l.Price, b.Price)
 		}
 		if o, found := s.Orders[ok]; found {
-			if o.Price().IsLT(l.Price) {
-				add("lease-price", "lease-price-above-max", "lease %s price %s exceeds order maximum %s", k, l.Price, o.Price())
+			// the order's maximum price, recomputed from its resources (sum of unit price x count), not taken from the code under test
+			max := int64(0)
+			for _, r := range o.Spec.Resources {
+				max += i64(r.Price) * int64(r.Count)
+			}
+			if l.Price.Denom != denom || i64(l.Price) > max {
+				add("lease-price", "lease-price-above-max", "lease %s price %s exceeds the order's maximum %d%s", k, l.Price, max, denom)
 			}
 		} else {
 			add("lease-price", "lease-without-order", "lease %s has no order record", k)
